@@ -323,6 +323,18 @@ impl ReadCursor {
     }
 }
 
+impl Drop for ReadCursor {
+    fn drop(&mut self) {
+        // Runs when the queue itself goes away: no handle is left, so nobody can still be reading
+        // the published stream list; release it (its predecessors were retired through the manager).
+        unsafe {
+            let current_group = self.readers.load(Ordering::Relaxed);
+            ptr::read(current_group);
+            alloc::deallocate(current_group, 1);
+        }
+    }
+}
+
 // Verification hook (off by default): contracts and proof harnesses kept outside the repository.
 #[cfg(feature = "multiqueue2_verif")]
 #[allow(dead_code, unused_imports, unused_variables, unused_mut)]
